@@ -6,9 +6,13 @@ EXTENDS Integers, Sequences, TLC, Json
 VARIABLE sc
 A(c) == [op |-> "add", c |-> c]
 R(c) == [op |-> "ready", c |-> c]
+T    == [op |-> "tick", c |-> ""]      \* the script lets several polling periods pass
 Pres == {<<>>, <<A("a")>>, <<A("a"), R("a")>>, <<A("a"), A("b"), R("a")>>, <<A("a"), A("b"), R("b"), R("a")>>}
 Mids == {<<>>, <<R("a")>>, <<R("b")>>, <<R("a"), R("b")>>, <<R("a"), A("a")>>, <<A("c")>>, <<A("c"), R("c")>>,
-         <<R("a"), R("b"), A("b")>>}
+         <<R("a"), R("b"), A("b")>>,
+         \* registrations after the wait has started; a component seen ready that registers again
+         <<A("c"), R("a")>>, <<A("c"), R("a"), R("b")>>, <<A("c"), T, R("a"), R("b")>>,
+         <<R("a"), T, A("a"), R("b")>>, <<R("a"), T, A("a"), T, R("b")>>, <<R("b"), T, A("b"), R("a"), T>>}
 Scripts == [pre : Pres, mid : Mids, cancel : {"no", "aftermid", "beforemid"}]
 Init == sc \in Scripts
 Next == UNCHANGED sc
